@@ -69,6 +69,34 @@ theorem aReduce_congr (x : ℝ) : ∃ n : ℤ, aReduce x = x - 360 * n := by
   · simp only [h, decide_false]
     exact ⟨0, by simp⟩
 
+/-- `reduce_deg` returns a value strictly inside one turn. -/
+theorem aReduce_abs_lt (x : ℝ) : |aReduce x| < 360 := by
+  unfold aReduce ple pabs
+  by_cases h : (360.0 : ℝ) ≤ |x|
+  · simp only [h, decide_true, if_true]
+    have ha : (0 : ℝ) ≤ |x| := abs_nonneg x
+    have htr : ptrunc |x| = ⌊|x|⌋ := by unfold ptrunc; simp [ha]
+    have hmod : pmod |x| 1.0 = |x| - (⌊|x|⌋ : ℝ) := by unfold pmod; norm_num
+    have hm0 : 0 ≤ imod ⌊|x|⌋ 360 := by
+      unfold imod; rw [Int.fmod_eq_emod_of_nonneg _ (by decide : (0:Int) ≤ 360)]; exact Int.emod_nonneg _ (by decide)
+    have hm1 : imod ⌊|x|⌋ 360 ≤ 359 := by
+      unfold imod; rw [Int.fmod_eq_emod_of_nonneg _ (by decide : (0:Int) ≤ 360)]
+      have := Int.emod_lt_of_pos ⌊|x|⌋ (by decide : (0:Int) < 360); omega
+    have f0 := Int.floor_le |x|
+    have f1 := Int.lt_floor_add_one |x|
+    rw [htr, hmod]
+    have hv0 : (0:ℝ) ≤ ofInt (imod ⌊|x|⌋ 360) + (|x| - (⌊|x|⌋ : ℝ)) := by
+      have : (0:ℝ) ≤ ofInt (imod ⌊|x|⌋ 360) := by unfold ofInt; exact_mod_cast hm0
+      linarith
+    have hv1 : ofInt (imod ⌊|x|⌋ 360) + (|x| - (⌊|x|⌋ : ℝ)) < 360 := by
+      have : ofInt (imod ⌊|x|⌋ 360) ≤ (359:ℝ) := by unfold ofInt; exact_mod_cast hm1
+      linarith
+    split_ifs
+    · rw [abs_mul, abs_of_nonneg hv0]; norm_num; exact hv1
+    · rw [abs_mul, abs_of_nonneg hv0]; norm_num; exact hv1
+  · simp only [h, decide_false]
+    norm_num at h; simpa using h
+
 theorem aToPositive_congr (x : ℝ) : ∃ n : ℤ, aToPositive x = x - 360 * n := by
   unfold aToPositive plt ple pabs
   by_cases h : x < 0.0
